@@ -352,6 +352,26 @@ def record_variant_cases(draw):
     return {'family': 'json', 'a': lst(), 'b': lst(), 'ds': 'auto', 'le': 'on'}
 
 
+# -- YAML streams of several documents (read as the list of the documents) -----------------------------------------------------
+
+@st.composite
+def yaml_stream_cases(draw):
+    small = st.one_of(st.none(), st.integers(0, 6), st.sampled_from(['a', 'b', 'ab']), st.booleans())
+    docd = st.one_of(small, small, st.lists(small, max_size=3), st.dictionaries(st.sampled_from(['a', 'b', 'k1']), small, max_size=3))
+    a = draw(st.lists(docd, min_size=2, max_size=4))
+    k = draw(st.integers(0, 4))
+    if k == 0:
+        b = draw(st.lists(docd, min_size=2, max_size=4))
+    elif k == 1:
+        b = [draw(docd)] + a                       # a document prepended: alignment beats positional pairing
+    elif k == 2:
+        b = a[1:] + [draw(docd)] if len(a) > 2 else a + [draw(docd)]
+    else:
+        b = [draw(docd) if draw(st.integers(0, 2)) == 0 else x for x in a]
+    ds, le = draw(options)
+    return {'family': 'yamlstream', 'a': a, 'b': b, 'ds': ds, 'le': le}
+
+
 # -- multisets: JSON lists are read as multisets ---------------------------------------------------------------------
 
 @st.composite
@@ -420,6 +440,11 @@ CELLS = ['', 'a', 'b', 'ab', '1', 'x y', 'c,d']
 def csv_cases(draw):
     row = st.lists(st.sampled_from(CELLS), min_size=1, max_size=4)
     T = st.lists(row, max_size=4)
+    if draw(st.integers(0, 5)) == 0:
+        # tables made of blank lines (rows without cells) and of rows holding one empty cell, in different numbers
+        blank = st.lists(st.sampled_from([[], [], ['']]), max_size=4)
+        a, b = draw(blank), draw(blank)
+        return {'family': 'csv', 'a': a, 'b': b, 'ds': 'auto', 'le': draw(st.sampled_from(common.LE))}
     a = draw(T)
     b = draw(st.one_of(T, mutate(a, T, st.sampled_from(CELLS)).filter(
         lambda t: isinstance(t, list) and all(isinstance(r, list) and r and all(isinstance(c, str) for c in r) for r in t))))
@@ -551,6 +576,15 @@ def build(case, which, opts=None):
             os.unlink(path)
     if fam == 'multiset':
         return build_multiset(doc, opts)
+    if fam == 'yamlstream':
+        import yaml
+        fd, path = tempfile.mkstemp(suffix='.yml', dir=scratch_dir())
+        try:
+            with os.fdopen(fd, 'w') as f:
+                yaml.safe_dump_all(doc, f, explicit_start=True)
+            return graphtage.FILETYPES_BY_TYPENAME['yaml'].build_tree(path, opts)
+        finally:
+            os.unlink(path)
     if fam == 'xml':
         from graphtage import xml as gxml
         return gxml.build_tree(to_et(doc), opts)
@@ -606,7 +640,15 @@ def valid_case(case):
         return ok(a) and ok(b)
     if fam == 'csv':
         def ok(t):
-            return isinstance(t, list) and all(isinstance(r, list) and r and all(isinstance(c, str) for c in r) for r in t)
+            return isinstance(t, list) and all(isinstance(r, list) and all(isinstance(c, str) for c in r) for r in t)
+        return ok(a) and ok(b)
+    if fam == 'yamlstream':
+        def ok(t):
+            try:
+                import yaml
+                return isinstance(t, list) and len(t) >= 2 and list(yaml.safe_load_all(yaml.safe_dump_all(t, explicit_start=True))) == t
+            except Exception:
+                return False
         return ok(a) and ok(b)
     if fam == 'plist':
         def ok(d):
